@@ -178,4 +178,8 @@ pub fn run(ctx: &mut Ctx) {
         }
     });
     ctx.require(&r, &["ok_value", "error"]);
+
+    // conversions from raw integers handed over by data formats: an out-of-range number is an error, never a
+    // wrapped or clamped value
+    crate::c15::decode_integers(ctx, "C02", true);
 }
